@@ -50,6 +50,9 @@ def run(chk):
     chk.count('construction / parse call sites with a structure in scope', n)
     chk.floor('C18-F call sites', n, 50)
 
+    chk.rule('C18-U', 'no function accepts a context parameter and then ignores it')
+    forwarding.dead_context_params(chk, c, 'C18-U', REF)
+
     # ---- C18-V
     ev = ix.func('core.Element.validate')
     ok = False
